@@ -955,6 +955,10 @@ namespace awkward {
     size_t i = 0;
     for (;  i < others.size();  i++) {
       ContentPtr other = others[i];
+      // decide on what a virtual array *is*, not on the wrapper
+      while (VirtualArray* raw = dynamic_cast<VirtualArray*>(other.get())) {
+        other = raw->array();
+      }
       if (dynamic_cast<IndexedArray32*>(other.get())  ||
           dynamic_cast<IndexedArrayU32*>(other.get())  ||
           dynamic_cast<IndexedArray64*>(other.get())  ||
@@ -968,9 +972,6 @@ namespace awkward {
           dynamic_cast<UnionArray8_64*>(other.get())) {
         break;
       }
-      else if (VirtualArray* raw = dynamic_cast<VirtualArray*>(other.get())) {
-        head.push_back(raw->array());
-      }
       else {
         head.push_back(other);
       }
@@ -978,6 +979,9 @@ namespace awkward {
 
     for (;  i < others.size();  i++) {
       ContentPtr other = others[i];
+      while (VirtualArray* raw = dynamic_cast<VirtualArray*>(other.get())) {
+        other = raw->array();
+      }
       tail.push_back(other);
     }
 
